@@ -46,7 +46,14 @@ fn command_parsing(ident: &Ident, command: &Command) -> TokenStream {
     let variant_fqn = quote! { #ident::#variant_name };
 
     let rhs = if command.args.is_empty() && command.subcommand.is_none() {
-        quote! { #variant_fqn, }
+        // command has no arguments, so any given argument or option is unexpected
+        let (parsing, _) = create_arg_parsing(command);
+        quote! {
+            {
+                #parsing
+                #variant_fqn
+            }
+        }
     } else {
         let (parsing, arguments) = create_arg_parsing(command);
         if command.named_args {
